@@ -514,7 +514,7 @@ func runC13(tier string) int {
 
 	// report: confirm alone in a fresh process, minimise, classify
 	sort.SliceStable(bad, func(i, j int) bool { return bad[i].input < bad[j].input })
-	reported := 0
+	reported, knownConfirmed := 0, 0
 	seenKey := map[string]bool{}
 	for _, v := range bad {
 		in := ins[v.input]
@@ -524,8 +524,22 @@ func runC13(tier string) int {
 			// count of violating runs is in the evidence
 			continue
 		}
+		// instances of a listed known finding do not use up that budget (a dozen
+		// doubling chains of different sizes once kept a violation further down
+		// the list from being looked at); a few of them are confirmed, the rest
+		// are counted
+		probe := &violation{Property: "C13", Class: v.class, Message: v.msg, Attrs: c13Attrs(in, v.kind, v.class, v.msg, v.c, in.Grammar)}
+		isKnown := rep.classify(probe) != ""
+		if isKnown && knownConfirmed >= 4 {
+			rep.add(probe)
+			continue
+		}
 		seenKey[key] = true
-		reported++
+		if isKnown {
+			knownConfirmed++
+		} else {
+			reported++
+		}
 		viol := c13Confirm(tw, seed, v.input, in, v.kind, v.class, v.msg, v.c, baseJobs[v.input].v.c)
 		if viol != nil {
 			rep.add(viol)
@@ -718,6 +732,12 @@ func c13Confirm(tw *toolWorld, seed uint64, idx int, in toolInput, kind, class, 
 	if kind != "base" {
 		rp.Base = &base
 	}
+	attrs := c13Attrs(in, kind, class, msg, c, g)
+	return &violation{Property: "C13", Class: class, Message: fmt.Sprintf("%s [%s] args=%q grammar=%q", msg, kind, c.Args, head(string(g), 200)), Attrs: attrs, Seed: seed, Case: fmt.Sprintf("input-%d/%s", idx, kind), Replay: rp, Kind: "c13"}
+}
+
+// c13Attrs are the attributes a C13 violation is classified by.
+func c13Attrs(in toolInput, kind, class, msg string, c tooldriver.Case, g []byte) map[string]string {
 	attrs := map[string]string{"class": class, "variant": kind, "message": msg, "args": strings.Join(c.Args, " "), "grammar": string(g), "dedupe": class + "|" + msg}
 	for k, v := range in.Attrs {
 		attrs[k] = v
@@ -726,7 +746,7 @@ func c13Confirm(tw *toolWorld, seed uint64, idx int, in toolInput, kind, class, 
 		attrs["optimize_grammar"] = fmt.Sprint(contains(c.Args, "-optimize-grammar"))
 		attrs["dedupe"] = class + "|" + in.Attrs["refs_all_visited"] + "|" + attrs["optimize_grammar"]
 	}
-	return &violation{Property: "C13", Class: class, Message: fmt.Sprintf("%s [%s] args=%q grammar=%q", msg, kind, c.Args, head(string(g), 200)), Attrs: attrs, Seed: seed, Case: fmt.Sprintf("input-%d/%s", idx, kind), Replay: rp, Kind: "c13"}
+	return attrs
 }
 
 var c13NoRecoverDocumented, c13CacheDocumented int
